@@ -149,6 +149,9 @@ func (w *World) facts(fn *ssa.Function) *funcFacts {
 				if !ok {
 					continue // ⊤
 				}
+				if semDead(p, b) {
+					continue // never taken
+				}
 				out := factSet{}
 				for f := range pin {
 					out[f] = struct{}{}
